@@ -13,7 +13,8 @@
 From Coq Require Import String.
 From Coq Require Import List Arith NArith Bool.
 Import ListNotations.
-From YP Require Import Base.Str Engine.Resolve Engine.ResolveProofs Engine.Keys Engine.ResolveLate.
+From YP Require Import Base.Str Engine.Resolve Engine.ResolveProofs Engine.Keys Engine.ResolveLate
+  Engine.RunResolve Engine.ResolveHist.
 
 (* ---- "A call name/N resolves to the dynamic facts of name/N in order followed by the answers of
    the definitions registered for exactly N arguments (a variadic registration is used only when
@@ -154,6 +155,23 @@ Theorem C08_register_get : forall c name st d k,
   if str_eqb k (mkkey name (reg_arity st d)) then Some [d] else ctx_get c k.
 Proof. exact register_get. Qed.
 Print Assumptions C08_register_get.
+
+(* ---- all of the above for EVERY history.  spec_step (Engine/ResolveHist.v) is the property text
+   as a state machine on total maps key -> definition list and name/arity -> fact list: register
+   assigns one key, a raising load changes nothing, an overwrite load replaces the keys it
+   mentions, a combining load appends to them, unmentioned keys are unaffected, assert_fact
+   appends/prepends one fact, clear empties both, queries change nothing.  After any history
+   from the empty engine the engine's dictionaries ARE these maps (and no key holds an empty
+   chain), and a call uses the spec's definitions for exactly its arity, else the variadic ones. *)
+Theorem C08_history_refines_spec : forall fuel ops,
+  abs_ok (st_eng (exec_ops fuel ops (mkState empty_engine []))) (spec_run ops spec_init).
+Proof. exact history_refines_spec. Qed.
+Print Assumptions C08_history_refines_spec.
+
+Theorem C08_defs_of_spec : forall e sp name n,
+  abs_ok e sp -> defs_of (e_ctx e) name n = spec_defs (fst sp) name n.
+Proof. exact defs_of_spec. Qed.
+Print Assumptions C08_defs_of_spec.
 
 (* ---- "each keeping its own cuts": a member of a chain that returns by cut (or ends normally)
    is followed by the next member; an exception ends the call *)
